@@ -186,7 +186,27 @@ def validate_stubs(seed):
             ctx.holds("cmp", ((x < y) == (a < b)) & ((x <= y) == (a <= b)) if True else True)
             counts["intops"] += 15
 
-    for name, h in (("struct", h_struct), ("crc", h_crc), ("sbytes", h_sbytes), ("enum", h_enum), ("utf8", h_utf8),
+    # --- hash model (ints and tuples of ints)
+    hash_vecs = [(0,), (1, 2), (255, 1), ((1 << 61) - 1, 8), (1 << 61, 8), ((1 << 64) - 1, 8), (7, 0), (12345, 4, 2)]
+    for _ in range(8):
+        hash_vecs.append(tuple(rnd.getrandbits(rnd.choice([8, 16, 32, 64])) for _ in range(rnd.randint(1, 3))))
+
+    def h_hash(ctx):
+        from .sbytes import sym_hash
+        for k, t in enumerate(hash_vecs):
+            xs = []
+            for j, v in enumerate(t):
+                x = ctx.int("h%d_%d" % (k, j), 0, (1 << 64) - 1)
+                ctx.assume(x == v)
+                xs.append(x)
+            ys = [ctx.int("g%d_%d" % (k, j), 0, (1 << 64) - 1) for j in range(len(t))]
+            for y, v in zip(ys, t):
+                ctx.assume(y == v)
+            ctx.holds("tuple hash congruent", sym_hash(tuple(xs)) == sym_hash(tuple(ys)))
+            ctx.holds("int hash", sym_hash(xs[0]) == (hash(t[0]) & ((1 << 64) - 1)))
+            counts["hash"] = counts.get("hash", 0) + 2
+
+    for name, h in (("hash", h_hash), ("struct", h_struct), ("crc", h_crc), ("sbytes", h_sbytes), ("enum", h_enum), ("utf8", h_utf8),
                     ("int", h_int)):
         ctx = Ctx()
         try:
